@@ -330,6 +330,25 @@ func init() {
 			c.need("C15/gc-worker-permanent", removeSvc, "call Storage.Remove", instrCallMatcher(P.IMethod("server/kv", "Base", "Remove")),
 				[]Ev{guardRel("serviceID!=gc_worker", "!=", func(v ssa.Value) bool { _, ok := v.(*ssa.Parameter); return ok }, isConstStr(gwName))}, all,
 				"gc_worker's entry is never removed")
+			// the expiry test never sees gc_worker's entry with a finite expiry: a legacy record is repaired first
+			unixCall := func(v ssa.Value) bool {
+				cl, _ := callOf(v)
+				return cl != nil && isStdMethod(cl, "time", "Time", "Unix")
+			}
+			c.need("C15/gc-worker-permanent", loadMin, "the expiry test (ExpiredAt < now)", func(i ssa.Instruction) bool {
+				iff, ok := i.(*ssa.If)
+				if !ok {
+					return false
+				}
+				r, ok := relOf(iff.Cond, true)
+				return ok && matchRel(r, "< >=", loadOfField(fExpired), unixCall)
+			}, []Ev{guardRel("not gc_worker", "!=", loadOfField(fSvcID), isConstStr(gwName)),
+				guardRel("ExpiredAt == MaxInt64", "==", loadOfField(fExpired), isConstInt(math.MaxInt64)),
+				&calledEv{name: "ExpiredAt = MaxInt64 (repair)", match: func(x ssa.Instruction) bool {
+					st, ok := x.(*ssa.Store)
+					return ok && fieldOfAddr(st.Addr) == fExpired && isConstInt(math.MaxInt64)(st.Val)
+				}, reset: func(x ssa.Instruction) bool { _, isNext := x.(*ssa.Next); return isNext }}},
+				anyOf, "an entry is tested for expiry only if it is not gc_worker's, or gc_worker's expiry is (or was just repaired to) MaxInt64")
 			// initServiceGCSafePointForGCWorker builds {gc_worker, MaxInt64}
 			c.saw(fnName(initGW))
 			okID, okExp := false, false
